@@ -29,7 +29,8 @@ THEOREMS = [f'Gnpy.Select.{t}' for t in (
     'preselect_sound', 'preselect_sound_partial', 'preselect_old_leaves_permitted_set', 'gain_fallback_spec',
     'mem_selectionLibrary', 'nodeRestrictionsMulti_permitted', 'auto_selection_main', 'findTypeVarietyE_mem',
     'multiband_choice_sound_if_single_entry', 'multiband_result_unpermitted_iff', 'per_band_mix_witness',
-    'band_pick_spec', 'multiband_band_picks', 'typedLoad_members', 'typedPick_spec', 'typed_design_sound')]
+    'band_pick_spec', 'multiband_band_picks', 'typedLoad_members', 'typedPick_spec', 'typed_design_sound',
+    'raman_only_after_low_loss_fibre', 'ramanAllowed_table_straddling')]
 PARTIAL = ['multiband (open finding multiband-per-band-choices-form-unpermitted-type): the whole Multiband_amplifier '
            'branch is modelled (multibandDesign) and under exact correspondence; proved: the node type is a permitted '
            'entry listing all picks when one permitted entry lists them (multiband_choice_sound_if_single_entry), and '
@@ -178,8 +179,10 @@ def gen(rng, tier, widen=False):
         return gen_select(rng, widen)
     if k < 0.70:
         return gen_restr(rng)
-    if k < 0.88:
+    if k < 0.83:
         return gen_topo(rng, tier)
+    if k < 0.88:
+        return gen_topo(rng, tier, raman_focus=True)
     if k < 0.94:
         return gen_mtopo(rng)
     return gen_presel(rng)
@@ -247,9 +250,41 @@ def gen_restr(rng):
     return c
 
 
-def gen_topo(rng, tier):
+def loss_table(rng, limit):
+    """a per-frequency loss-coefficient table (dB/km) relative to the Raman limit: all below, all above, straddling,
+    or touching the limit exactly"""
+    n = rng.choice([2, 3, 4, 6])
+    kind = rng.choice(['below', 'above', 'straddle', 'straddle', 'one_above', 'one_at_limit', 'all_at_limit'])
+    lo = [round(limit - rng.choice([0.01, 0.02, 0.05]), 3) for _ in range(n)]
+    hi = [round(limit + rng.choice([0.01, 0.02, 0.04]), 3) for _ in range(n)]
+    if kind == 'below':
+        vals = lo
+    elif kind == 'above':
+        vals = hi
+    elif kind == 'straddle':
+        vals = [rng.choice([a, b]) for a, b in zip(lo, hi)]
+        vals[rng.randrange(n)] = lo[0]
+        vals[(rng.randrange(n - 1) + 1 + vals.index(lo[0])) % n] = hi[0]
+    elif kind == 'one_above':
+        vals = list(lo)
+        vals[rng.randrange(n)] = hi[0]
+    elif kind == 'one_at_limit':
+        vals = list(lo)
+        vals[rng.randrange(n)] = limit
+    else:
+        vals = [limit] * n
+    freqs = [191.3e12 + i * (196.1e12 - 191.3e12) / (n - 1) for i in range(n)]
+    return {'value': vals, 'frequency': freqs, 'kind': kind}
+
+
+def gen_topo(rng, tier, raman_focus=False):
     n = rng.choice([2, 3, 4, 6, 8])
     entries = good_lib(rng, n=n)
+    if raman_focus or rng.random() < 0.25:
+        # a quiet Raman model for gains of 20 dB and more: chosen wherever Raman is allowed and the span is long
+        entries.append({'type_variety': 'rq', 'type_def': 'fixed_gain', 'gain_flatmax': rng.choice([30, 33, 36]),
+                        'gain_min': rng.choice([18, 20, 22, 25]), 'p_max': 23, 'nf0': rng.choice([0.5, 1.0, 2.0]),
+                        'raman': True, 'allowed_for_design': True})
     # make sure design is usually feasible: a few ordinary allowed models with staggered gain ranges
     if rng.random() < 0.8:
         stock = [(8, 16, 23, 6.5, 11), (15, 26, 23, 6, 10), (25, 35, 21, 5.5, 7)]
@@ -273,9 +308,13 @@ def gen_topo(rng, tier):
             line.append({'el': 'edfa', 'uid': f'boost {d}', 'type_variety': rng.choice(['', '', rng.choice(names)]),
                          'variety_list': rng.choice([None, None, sub()])})
         for i in range(nspan):
-            line.append({'el': 'fiber', 'uid': f'fiber {d} {i}', 'length': rng.choice([20, 40, 60, 80, 100, 120]),
-                         'loss_coef': rng.choice([0.2, 0.2, 0.22, limit, limit - 0.01, limit + 0.02, 0.18]),
-                         'type_variety': 'SSMF'})
+            fib = {'el': 'fiber', 'uid': f'fiber {d} {i}',
+                   'length': rng.choice([100, 110, 120, 130] if raman_focus else [20, 40, 60, 80, 100, 120]),
+                   'loss_coef': rng.choice([0.2, 0.2, 0.22, limit, limit - 0.01, limit + 0.02, 0.18]),
+                   'type_variety': 'SSMF'}
+            if rng.random() < (0.8 if raman_focus else 0.2):
+                fib['loss_table'] = loss_table(rng, limit)
+            line.append(fib)
             if rng.random() < 0.35:
                 line.append({'el': 'edfa', 'uid': f'amp {d} {i}', 'type_variety': rng.choice(['', '', '', rng.choice(names)]),
                              'variety_list': rng.choice([None, None, sub()])})
@@ -574,7 +613,10 @@ def topo_json(case):
         line = []
         for it in case['lines'][d]:
             if it['el'] == 'fiber':
-                line.append(nets.fiber(it['uid'], it['length'], it['type_variety'], loss_coef=it['loss_coef']))
+                lc = it['loss_coef']
+                if it.get('loss_table'):
+                    lc = {'value': list(it['loss_table']['value']), 'frequency': list(it['loss_table']['frequency'])}
+                line.append(nets.fiber(it['uid'], it['length'], it['type_variety'], loss_coef=lc))
             elif it['el'] == 'fused':
                 line.append(nets.fused(it['uid']))
             else:
@@ -711,8 +753,14 @@ def run_topo(case, drv):
                 if band is not None and not (a.f_min <= band[0] and a.f_max >= band[1]):
                     continue
                 permitted.add(n)
-            raman_ok = (type(prev_node).__name__ == 'Fiber'
-                        and bool(np.all(np.asarray(prev_node.params.loss_coef) * 1e3 < limit)))
+            # Raman only after a fibre whose EVERY loss entry (dB/m) is below the limit (dB/km -> dB/m)
+            table = np.atleast_1d(np.asarray(prev_node.params.loss_coef, dtype=float)) if type(prev_node).__name__ == 'Fiber' \
+                else np.array([])
+            raman_ok = type(prev_node).__name__ == 'Fiber' and all(float(x) < limit * 1e-3 for x in table)
+            if len(table) > 1:
+                below = sum(float(x) < limit * 1e-3 for x in table)
+                res.stats['topo_loss_table_' + ('all_below' if below == len(table) else 'none_below' if below == 0
+                                                else 'straddling')] += 1
             s = next((x for x in sel_calls if x['uid'] == uid), None)
             if s is None:
                 res.fail(f'permitted set: {uid} received {chosen} without a selection being observed')
